@@ -1053,8 +1053,9 @@ func (r *Runtime) regexpproto_stdSplitter(call FunctionCall) Value {
 
 	for _, result := range results {
 		if result.indexes[0] == result.indexes[1] {
-			// FIXME Ugh, this is a hack
-			if result.indexes[0] == 0 || result.indexes[0] == targetLength {
+			// An empty match directly after the previous separator (or at the start), or at the end of the
+			// string, does not split (see the e = p step of RegExp.prototype[@@split]).
+			if result.indexes[0] == lastIndex || result.indexes[0] == targetLength {
 				continue
 			}
 		}
